@@ -419,7 +419,27 @@ fn enc(m: &Message) -> Vec<u8> {
 }
 
 fn suffix(r: &mut Rng) -> Vec<u8> {
-    match r.below(6) {
+    match r.below(8) {
+        6 => {
+            // bytes that do not start a storage header, with the pattern further behind
+            let n = r.range(1, 12) as usize;
+            let mut v = r.bytes(n);
+            if v[0] == 0x44 {
+                v[0] = 0x45;
+            }
+            v.extend_from_slice(&[0x44, 0x4c, 0x54, 0x01]);
+            let k = r.below(24) as usize;
+            v.extend(r.bytes(k));
+            v
+        }
+        7 => {
+            // a few stray bytes and then another message (with its storage header half of the time)
+            let n = r.range(1, 6) as usize;
+            let mut v = vec![0x20; n];
+            let storage = if r.flip() { Some(true) } else { None };
+            v.extend(enc(&message(r, &MsgOpts { storage, ..MsgOpts::default() })));
+            v
+        }
         0 | 1 => vec![],
         2 => {
             let n = r.range(1, 20) as usize;
@@ -750,6 +770,50 @@ fn c03(r: &mut Rng, thorough: bool, w: W) -> std::io::Result<()> {
             writeln!(w, "NOPANIC 0 - {}", hex(&v))?;
         }
     }
+    // complete messages whose length field is at and near its 16-bit limit, parsed with and without
+    // storage header (with one the stored message is longer than 65535 bytes) and followed by more
+    // input: what is returned must be re-serialisable and measurable. Built by hand, byte for byte
+    // (a generator that called the crate's writer would change together with it).
+    for storage in [true, false] {
+        for full_header in [false, true] {
+            for total in [65519usize, 65520, 65521, 65534, 65535] {
+                for shape in 0..2 {
+                    let be = total % 2 == 0;
+                    let verbose = shape == 1 && full_header;
+                    let mut v: Vec<u8> = Vec::with_capacity(total + 32);
+                    if storage {
+                        v.extend_from_slice(&[0x44, 0x4c, 0x54, 0x01, 9, 0, 0, 0, 8, 0, 0, 0, b'E', b'C', 0, 0]);
+                    }
+                    let htyp: u8 = (1 << 5) | if be { 0x02 } else { 0 } | if full_header { 0x01 | 0x04 | 0x08 | 0x10 } else { 0 };
+                    v.extend_from_slice(&[htyp, 200, (total >> 8) as u8, total as u8]);
+                    if full_header {
+                        v.extend_from_slice(b"ECU9");
+                        v.extend_from_slice(&77u32.to_be_bytes());
+                        v.extend_from_slice(&99u32.to_be_bytes());
+                        v.extend_from_slice(&[if verbose { 0x41 } else { 0x50 }, if verbose { 1 } else { 0 }]);
+                        v.extend_from_slice(b"APP\0CTX\0");
+                    }
+                    let head = 4 + if full_header { 12 + 10 } else { 0 };
+                    if verbose {
+                        let ti: u32 = 0x0000_0400;
+                        let n = (total - head - 6) as u16;
+                        v.extend_from_slice(&if be { ti.to_be_bytes() } else { ti.to_le_bytes() });
+                        v.extend_from_slice(&if be { n.to_be_bytes() } else { n.to_le_bytes() });
+                        v.extend(std::iter::repeat(0xA5u8).take(n as usize));
+                    } else {
+                        let id: u32 = 0x01020304;
+                        v.extend_from_slice(&if be { id.to_be_bytes() } else { id.to_le_bytes() });
+                        v.extend(std::iter::repeat(0x5Au8).take(total - head - 4));
+                    }
+                    v.extend_from_slice(&[0x44, 0x4c, 0x54, 0x01, 0, 0]);
+                    writeln!(w, "NOPANIC {} - {}", p_bool(storage), hex(&v))?;
+                    if storage {
+                        writeln!(w, "CONSUME {}", hex(&v))?;
+                    }
+                }
+            }
+        }
+    }
     for i in 0..n {
         let (ws, v) = decode_stream(r, i % 500 == 0);
         let ids = vec!["A".to_string(), "ABC".to_string(), "x".to_string()];
@@ -821,6 +885,59 @@ fn c05(r: &mut Rng, thorough: bool, w: W) -> std::io::Result<()> {
     for _ in 0..n {
         let m = message(r, &MsgOpts { storage: None, big: false, max_args: 4 });
         writeln!(w, "CUTALL {}", p_message(&m))?;
+    }
+    // messages that carry the storage-header pattern in their own payload (non-verbose payload, raw
+    // argument, string argument, network-trace slice, application / context id), every cut
+    for storage in [true, false] {
+        for shape in 0..5 {
+            for at in [0usize, 1, 5] {
+                let mut blob = vec![0x11u8; at];
+                blob.extend_from_slice(&[0x44, 0x4c, 0x54, 0x01]);
+                blob.extend_from_slice(&[0x22; 6]);
+                let log = MessageType::Log(LogLevel::Info);
+                let ext = |mt: MessageType| Some(ExtendedHeaderConfig { message_type: mt, app_id: "DLT\u{1}".into(), context_id: "C".into() });
+                let (payload, ext): (PayloadContent, Option<ExtendedHeaderConfig>) = match shape {
+                    0 => (PayloadContent::NonVerbose(0x0154_4c44, blob.clone()), None),
+                    1 => (PayloadContent::NonVerbose(7, blob.clone()), ext(log)),
+                    2 => (
+                        PayloadContent::Verbose(vec![Argument {
+                            type_info: TypeInfo { kind: TypeInfoKind::Raw, coding: StringCoding::ASCII, has_variable_info: false, has_trace_info: false },
+                            name: None,
+                            unit: None,
+                            fixed_point: None,
+                            value: Value::Raw(blob.clone()),
+                        }]),
+                        ext(log),
+                    ),
+                    3 => (
+                        PayloadContent::Verbose(vec![Argument {
+                            type_info: TypeInfo { kind: TypeInfoKind::StringType, coding: StringCoding::UTF8, has_variable_info: false, has_trace_info: false },
+                            name: None,
+                            unit: None,
+                            fixed_point: None,
+                            value: Value::StringVal(format!("{}DLT\u{1}tail", "x".repeat(at))),
+                        }]),
+                        ext(log),
+                    ),
+                    _ => (PayloadContent::NetworkTrace(vec![blob.clone(), vec![1, 2]]), ext(MessageType::NetworkTrace(NetworkTraceType::Can))),
+                };
+                let sh = storage.then(|| StorageHeader { timestamp: DltTimeStamp { seconds: 5, microseconds: 6 }, ecu_id: "ECU".into() });
+                let m = Message::new(
+                    MessageConfig {
+                        version: 1,
+                        counter: 1,
+                        endianness: if at == 1 { Endianness::Big } else { Endianness::Little },
+                        ecu_id: (at == 5).then(|| "DLT\u{1}".to_string()),
+                        session_id: None,
+                        timestamp: None,
+                        payload,
+                        extended_header_info: ext,
+                    },
+                    sh,
+                );
+                writeln!(w, "CUTALL {}", p_message(&m))?;
+            }
+        }
     }
     // the longest messages there are: the 16-bit length field at and near its limit (with a storage
     // header the whole message is longer than 65535 bytes)
@@ -1590,10 +1707,36 @@ fn damage(r: &mut Rng, x: &[u8]) -> Vec<u8> {
     if v.is_empty() {
         return v;
     }
-    match r.below(13) {
+    match r.below(15) {
         0 | 1 | 2 => {
             let c = r.below(v.len() as u64) as usize;
             v.truncate(c);
+        }
+        13 | 14 => {
+            // the text of any text-valued element replaced by texts of other lengths with multi-byte
+            // characters at every alignment (ids longer than the 4 bytes of a DLT id, characters that
+            // straddle the 4th byte, empty texts, blanks), or the file cut right behind its start tag
+            let s = String::from_utf8_lossy(&v).into_owned();
+            let tags = [
+                "<APPLICATION_ID>", "<CONTEXT_ID>", "<MESSAGE_TYPE>", "<MESSAGE_INFO>", "<ho:SHORT-NAME>", "<ho:DESC>",
+                "<fx:PDU-TYPE>", "<fx:FRAME-TYPE>", "<fx:BYTE-LENGTH>", "<fx:SEQUENCE-NUMBER>",
+            ];
+            let tag = *r.pick(&tags);
+            let occ: Vec<usize> = s.match_indices(tag).map(|(i, _)| i + tag.len()).collect();
+            if !occ.is_empty() {
+                let i = *r.pick(&occ);
+                if r.chance(1, 5) {
+                    let mut t = s[..i].to_string();
+                    t.push_str(*r.pick(&["", "<!-- c -->", "<?pi x?>", "<!-- a --><?p?>", " "]));
+                    v = t.into_bytes();
+                } else if let Some(e) = s[i..].find('<') {
+                    const TEXTS: &[&str] = &[
+                        "APP\u{e9}", "CT\u{20ac}1", "AB\u{1f600}", "A\u{1f600}", "\u{e9}\u{e9}\u{e9}", "\u{c4}\u{d6}\u{dc}", "ABC\u{e9}X",
+                        "AB\u{20ac}", "A\u{20ac}BC", "LONGER-THAN-FOUR", "", " ", "abcd\u{e9}", "\u{20ac}\u{20ac}", "a\u{308}a\u{308}a\u{308}",
+                    ];
+                    v = format!("{}{}{}", &s[..i], r.pick(TEXTS), &s[i + e..]).into_bytes();
+                }
+            }
         }
         10 | 11 | 12 => {
             // numbers and error positions: replace the text of a BYTE-LENGTH / SEQUENCE-NUMBER by
